@@ -174,17 +174,30 @@ func (i *interpreter) recordHashApp(app *hashApp) {
 		}
 		return
 	}
+	if i.warm {
+		return
+	}
+	i.syncInitApps()
+	i.addHashApp(app)
+	i.settleAxioms()
+}
+
+// syncInitApps loads the applications made by package initialisers (which may run lazily in the
+// middle of a path) that the path has not seen yet, so symbolic applications are always related
+// to them.
+func (i *interpreter) syncInitApps() {
+	ps := i.ps
+	for ps.initAppsSeen < len(i.initHashApps) {
+		a := i.initHashApps[ps.initAppsSeen]
+		ps.initAppsSeen++
+		i.addHashApp(&hashApp{fam: a.fam, in: a.in, out: i.tb.BigConst(a.out.w, a.out.bigVal())})
+	}
+}
+
+// addHashApp asserts the pairwise axioms between app and the applications already on the path.
+func (i *interpreter) addHashApp(app *hashApp) {
 	ps := i.ps
 	tb := i.tb
-	if !ps.initAppsLoaded {
-		ps.initAppsLoaded = true
-		for _, a := range i.initHashApps {
-			// constants created in another term table: rebuild
-			d, _ := allConcreteBytes(a.in)
-			_ = d
-			ps.hashApps = append(ps.hashApps, &hashApp{fam: a.fam, in: a.in, out: tb.BigConst(a.out.w, a.out.bigVal())})
-		}
-	}
 	for _, o := range ps.hashApps {
 		if o.fam != app.fam {
 			continue
@@ -194,7 +207,7 @@ func (i *interpreter) recordHashApp(app *hashApp) {
 		}
 		outEq := tb.Eq(o.out, app.out)
 		if len(o.in) != len(app.in) {
-			ps.assume(tb.Not(outEq))
+			i.axiom(tb.Not(outEq))
 			continue
 		}
 		var inEq value = true
@@ -208,9 +221,43 @@ func (i *interpreter) recordHashApp(app *hashApp) {
 		if ie.isConst() && ie.c != 0 && outEq.isConst() {
 			continue
 		}
-		ps.assume(tb.Eq(ie, outEq))
+		i.axiom(tb.Eq(ie, outEq))
 	}
 	ps.hashApps = append(ps.hashApps, app)
+}
+
+// axiom adds a modelling assumption to the path condition and ends the path if it makes the
+// path condition unsatisfiable (the path was only reachable by violating the assumption, e.g.
+// through a hash collision). The feasibility check is recorded like a decision.
+func (i *interpreter) axiom(t *Term) {
+	if t.isConst() {
+		if t.c == 0 {
+			panic(pathAbort{kind: "infeasible"})
+		}
+		return
+	}
+	// No decision slot is consumed (the set of axioms depends on when package initialisers
+	// ran on this worker, which must not shift the decision sequence of replayed prefixes);
+	// the feasibility check is therefore repeated on replays.
+	i.ps.assume(t)
+	i.ps.axiomsPending = true
+}
+
+// settleAxioms checks that the path condition is still satisfiable after a batch of axioms.
+func (i *interpreter) settleAxioms() {
+	ps := i.ps
+	if ps == nil || !ps.axiomsPending {
+		return
+	}
+	ps.axiomsPending = false
+	switch i.sol.check() {
+	case resUnsat:
+		panic(pathAbort{kind: "assume", info: "axioms"})
+	case resUnknown:
+		ps.unknown = true
+	case resSat:
+		ps.fetchModel()
+	}
 }
 
 func hashWrite(fr *frame, args []value) value {
